@@ -170,6 +170,20 @@ Proof.
   unfold ps_view in Hv. rewrite Hs in Hv. cbn [filter map] in Hv. rewrite app_nil_r in Hv. exact Hv.
 Qed.
 
+(* what t is owed does not depend on what other connections subscribe to or unsubscribe from *)
+Lemma expected_own : forall evs t su, expected pm t su evs = expected pm t su (own_history t evs).
+Proof.
+  induction evs as [|ev r IH]; intros t su; [reflexivity|].
+  unfold own_history in *. destruct ev as [[|] c t'|[|] c t'|c m| |t0]; cbn [filter concerns expected];
+    try (destruct (Nat.eqb t' t) eqn:E; cbn [expected]; rewrite ?E; apply IH);
+    try (f_equal; apply IH); apply IH.
+Qed.
+
+Theorem pubsub_foreign_unsubscribe : forall evs t,
+  serialised pm ps_init evs = true ->
+  ps_view (prun pm ps_init evs) t = expected pm t (mkTsubs [] []) (own_history t evs).
+Proof. intros evs t H. rewrite <- expected_own. apply pubsub_fifo. exact H. Qed.
+
 End Pubsub.
 
 (* ------------------------------------------------------------------------------------------ *)
